@@ -2,6 +2,7 @@ import LabtechModel.Proofs.Ready
 import LabtechModel.Proofs.Plan
 import LabtechModel.Proofs.InvMain
 import LabtechModel.Proofs.Inv2Need
+import LabtechModel.Proofs.IntrOnce
 /-!
 # C03 — Each distinct task runs at most once, and only if its result is needed
 
@@ -38,6 +39,12 @@ Load-or-execute and the planning closure (from `FlagInv` of `Proofs/Inv2Flag.lea
 * `cached_deps_untouched`: a task none of whose objects is needed — in particular one reachable from
   the requested tasks only through tasks cached beforehand — is not planned, never submitted, never
   loaded, never executed, never yielded.
+At every instant of every interrupted run (statement-level model M10, `Proofs/IntrOnce.lean`; no hypothesis):
+* `submitted_at_most_once_every_instant`, `executed_at_most_once_every_instant`,
+  `nothing_outside_plan_every_instant` (each with `_handler`, `_second`), `once_and_planned_interrupted`,
+  `no_second_submit_or_execution_interrupted`, `submitted_left_work_list_every_instant`: the whole-run
+  statements for the state after EVERY primitive prefix of the main stream, of the first Ctrl-C handler
+  entered at any instant, and of the second handler entered at any instant of the first.
 -/
 namespace Lt.Props.C03
 open Lt
@@ -354,5 +361,216 @@ example :
     ranOf (run invExCfg pr [] 4 (List.replicate 5 chooseAll)).trace = [0, 1, 3] ∧
     ranOf (run { invExCfg with backend := .serial } pr [] 4 (List.replicate 5 chooseAll)).trace = [0, 1, 2, 3] := by
   decide
+
+/-! ## at EVERY INSTANT of EVERY INTERRUPTED run (statement granularity, model M10)
+
+`mainAt … k`: the state after the first `k` primitives (Python statements) of the main loop's stream,
+for EVERY `k` — mid-submit-phase, inside `_start_processes` (where a future is in the pending map AND in
+the running map), mid-`complete_task`; `handlerAt … k ds m`: after `m` further primitives of the
+`KeyboardInterrupt` handler (`cancel`, drain along `ds`) entered at instant `k`; `secondAt … k ds m m2`:
+after `m2` primitives of the second handler (`cancel`, `stop`, one last processing round) entered at
+instant `m` of the first. (Same definitions as in `Props/C04.lean`.) The invariant `OI` of
+`Proofs/IntrOnce.lean` holds in all of them, for every problem, configuration, cache pre-state, fuel,
+schedule and drain schedule; no hypothesis. -/
+
+/-- state after the first `k` primitives of the main loop's stream (`k` beyond its end: the end) -/
+abbrev mainAt (cfg : Config) (p : Problem) (store : Store) (fuel : Nat) (sched : List Choice) (k : Nat) : IS :=
+  stateAt cfg p store fuel sched k
+
+/-- state after `m` primitives of the first interrupt handler entered at instant `k` -/
+abbrev handlerAt (cfg : Config) (p : Problem) (store : Store) (fuel : Nat) (sched : List Choice) (k : Nat)
+    (ds : List Choice) (m : Nat) : IS :=
+  runPrims cfg p ((handlerPrims cfg p (reqTids p) ds (mainAt cfg p store fuel sched k)).take m)
+    (mainAt cfg p store fuel sched k)
+
+/-- state after `m2` primitives of the second handler entered at instant `m` of the first -/
+abbrev secondAt (cfg : Config) (p : Problem) (store : Store) (fuel : Nat) (sched : List Choice) (k : Nat)
+    (ds : List Choice) (m m2 : Nat) : IS :=
+  runPrims cfg p ((secondPrims cfg p (reqTids p) (handlerAt cfg p store fuel sched k ds m)).take m2)
+    (handlerAt cfg p store fuel sched k ds m)
+
+/-- the states of `interruptedRun` (at the interrupt, and final) are among these -/
+theorem interruptedRun_states (cfg : Config) (p : Problem) (store : Store) (fuel : Nat)
+    (sched ds : List Choice) (k : Nat) (k2 : Option Nat) :
+    (∃ k', (interruptedRun cfg p store fuel sched k ds k2).atIntr = mainAt cfg p store fuel sched k') ∧
+    ((∃ k', (interruptedRun cfg p store fuel sched k ds k2).final = mainAt cfg p store fuel sched k') ∨
+     (∃ m, (interruptedRun cfg p store fuel sched k ds k2).final = handlerAt cfg p store fuel sched k ds m) ∨
+     (∃ m m2, (interruptedRun cfg p store fuel sched k ds k2).final = secondAt cfg p store fuel sched k ds m m2)) :=
+  interruptedRun_cases store fuel sched ds k k2
+
+/-- SUBMITTED AT MOST ONCE, AT EVERY INSTANT of the main loop: after ANY number `k` of primitives the
+    `submit` events of the trace carry pairwise distinct tasks -/
+theorem submitted_at_most_once_every_instant (cfg : Config) (p : Problem) (store : Store) (fuel : Nat)
+    (sched : List Choice) (k : Nat) : (submittedOf (mainAt cfg p store fuel sched k).rs.trace).Nodup :=
+  (stateAt_OI store fuel sched k).subNd
+
+/-- … and at every instant of the interrupt handler entered at any instant `k` -/
+theorem submitted_at_most_once_every_instant_handler (cfg : Config) (p : Problem) (store : Store) (fuel : Nat)
+    (sched : List Choice) (k : Nat) (ds : List Choice) (m : Nat) :
+    (submittedOf (handlerAt cfg p store fuel sched k ds m).rs.trace).Nodup :=
+  (handlerStateAt_OI store fuel sched k ds m).subNd
+
+/-- … and at every instant of the second handler (double interrupt at any `k`, `m`) -/
+theorem submitted_at_most_once_every_instant_second (cfg : Config) (p : Problem) (store : Store) (fuel : Nat)
+    (sched : List Choice) (k : Nat) (ds : List Choice) (m m2 : Nat) :
+    (submittedOf (secondAt cfg p store fuel sched k ds m m2).rs.trace).Nodup :=
+  (secondStateAt_OI store fuel sched k ds m m2).subNd
+
+/-- EXECUTED AT MOST ONCE, AT EVERY INSTANT of the main loop: the worker records (`exec` = `run()`
+    executed, `load` = loaded from cache) carry pairwise distinct tasks -/
+theorem executed_at_most_once_every_instant (cfg : Config) (p : Problem) (store : Store) (fuel : Nat)
+    (sched : List Choice) (k : Nat) : (ranOf (mainAt cfg p store fuel sched k).rs.trace).Nodup :=
+  (stateAt_OI store fuel sched k).ranNd
+
+/-- … during the drain after one Ctrl-C -/
+theorem executed_at_most_once_every_instant_handler (cfg : Config) (p : Problem) (store : Store) (fuel : Nat)
+    (sched : List Choice) (k : Nat) (ds : List Choice) (m : Nat) :
+    (ranOf (handlerAt cfg p store fuel sched k ds m).rs.trace).Nodup :=
+  (handlerStateAt_OI store fuel sched k ds m).ranNd
+
+/-- … and in the final processing round after a second Ctrl-C -/
+theorem executed_at_most_once_every_instant_second (cfg : Config) (p : Problem) (store : Store) (fuel : Nat)
+    (sched : List Choice) (k : Nat) (ds : List Choice) (m m2 : Nat) :
+    (ranOf (secondAt cfg p store fuel sched k ds m m2).rs.trace).Nodup :=
+  (secondStateAt_OI store fuel sched k ds m m2).ranNd
+
+/-- what `OI` says about the tasks on record: every submitted, started, loaded or executed task is in
+    the work list built by planning, and was submitted -/
+theorem OI_on_record {P : TS} {s : IS} (h : OI P s) (t : Tid)
+    (ht : (∃ uc, Ev.submit t uc ∈ s.rs.trace) ∨ Ev.start t ∈ s.rs.trace ∨ Ev.load t ∈ s.rs.trace ∨
+      (∃ seen, Ev.exec t seen ∈ s.rs.trace)) :
+    t ∈ P.pending ∧ ∃ uc, Ev.submit t uc ∈ s.rs.trace := by
+  have hs : t ∈ submittedOf s.rs.trace := by
+    rcases ht with h1 | h1 | h1 | h1
+    · exact (mem_submittedOf _ _).mpr h1
+    · exact h.startSub t h1
+    · exact h.ranSub t ((mem_ranOf _ _).mpr (Or.inl h1))
+    · exact h.ranSub t ((mem_ranOf _ _).mpr (Or.inr h1))
+  exact ⟨h.subPlan t hs, (mem_submittedOf _ _).mp hs⟩
+
+/-- NOTHING OUTSIDE THE PLAN, AT EVERY INSTANT of the main loop: every task with a `submit`, `start`,
+    `load` or `exec` event is in the work list built by planning (which `plan_is_needed_closure` ties to
+    the needed objects), and has a `submit` event -/
+theorem nothing_outside_plan_every_instant (cfg : Config) (p : Problem) (store : Store) (fuel : Nat)
+    (sched : List Choice) (k : Nat) (t : Tid)
+    (ht : (∃ uc, Ev.submit t uc ∈ (mainAt cfg p store fuel sched k).rs.trace) ∨
+      Ev.start t ∈ (mainAt cfg p store fuel sched k).rs.trace ∨
+      Ev.load t ∈ (mainAt cfg p store fuel sched k).rs.trace ∨
+      (∃ seen, Ev.exec t seen ∈ (mainAt cfg p store fuel sched k).rs.trace)) :
+    t ∈ (plan cfg p store fuel).pending ∧ ∃ uc, Ev.submit t uc ∈ (mainAt cfg p store fuel sched k).rs.trace :=
+  OI_on_record (stateAt_OI store fuel sched k) t ht
+
+theorem nothing_outside_plan_every_instant_handler (cfg : Config) (p : Problem) (store : Store) (fuel : Nat)
+    (sched : List Choice) (k : Nat) (ds : List Choice) (m : Nat) (t : Tid)
+    (ht : (∃ uc, Ev.submit t uc ∈ (handlerAt cfg p store fuel sched k ds m).rs.trace) ∨
+      Ev.start t ∈ (handlerAt cfg p store fuel sched k ds m).rs.trace ∨
+      Ev.load t ∈ (handlerAt cfg p store fuel sched k ds m).rs.trace ∨
+      (∃ seen, Ev.exec t seen ∈ (handlerAt cfg p store fuel sched k ds m).rs.trace)) :
+    t ∈ (plan cfg p store fuel).pending ∧
+      ∃ uc, Ev.submit t uc ∈ (handlerAt cfg p store fuel sched k ds m).rs.trace :=
+  OI_on_record (handlerStateAt_OI store fuel sched k ds m) t ht
+
+theorem nothing_outside_plan_every_instant_second (cfg : Config) (p : Problem) (store : Store) (fuel : Nat)
+    (sched : List Choice) (k : Nat) (ds : List Choice) (m m2 : Nat) (t : Tid)
+    (ht : (∃ uc, Ev.submit t uc ∈ (secondAt cfg p store fuel sched k ds m m2).rs.trace) ∨
+      Ev.start t ∈ (secondAt cfg p store fuel sched k ds m m2).rs.trace ∨
+      Ev.load t ∈ (secondAt cfg p store fuel sched k ds m m2).rs.trace ∨
+      (∃ seen, Ev.exec t seen ∈ (secondAt cfg p store fuel sched k ds m m2).rs.trace)) :
+    t ∈ (plan cfg p store fuel).pending ∧
+      ∃ uc, Ev.submit t uc ∈ (secondAt cfg p store fuel sched k ds m m2).rs.trace :=
+  OI_on_record (secondStateAt_OI store fuel sched k ds m m2) t ht
+
+/-- a submitted task has left the work list for good, at every instant of all three streams (so it
+    cannot be handed to `get_ready_tasks` again) -/
+theorem submitted_left_work_list_every_instant (cfg : Config) (p : Problem) (store : Store) (fuel : Nat)
+    (sched : List Choice) (k : Nat) (ds : List Choice) (m m2 : Nat) (t : Tid) :
+    (t ∈ submittedOf (mainAt cfg p store fuel sched k).rs.trace →
+      t ∉ (mainAt cfg p store fuel sched k).rs.ts.pending) ∧
+    (t ∈ submittedOf (handlerAt cfg p store fuel sched k ds m).rs.trace →
+      t ∉ (handlerAt cfg p store fuel sched k ds m).rs.ts.pending) ∧
+    (t ∈ submittedOf (secondAt cfg p store fuel sched k ds m m2).rs.trace →
+      t ∉ (secondAt cfg p store fuel sched k ds m m2).rs.ts.pending) :=
+  ⟨(stateAt_OI store fuel sched k).subP t, (handlerStateAt_OI store fuel sched k ds m).subP t,
+    (secondStateAt_OI store fuel sched k ds m m2).subP t⟩
+
+/-- all of it for `interruptedRun` itself: the state at the interrupt and the final state, for every
+    interrupt instant `k`, drain schedule `ds` and optional second interrupt instant `k2` -/
+theorem once_and_planned_interrupted (cfg : Config) (p : Problem) (store : Store) (fuel : Nat)
+    (sched ds : List Choice) (k : Nat) (k2 : Option Nat) (s : IS)
+    (hs : s = (interruptedRun cfg p store fuel sched k ds k2).final ∨
+          s = (interruptedRun cfg p store fuel sched k ds k2).atIntr) :
+    (submittedOf s.rs.trace).Nodup ∧ (ranOf s.rs.trace).Nodup ∧
+    ∀ t, ((∃ uc, Ev.submit t uc ∈ s.rs.trace) ∨ Ev.start t ∈ s.rs.trace ∨ Ev.load t ∈ s.rs.trace ∨
+        (∃ seen, Ev.exec t seen ∈ s.rs.trace)) →
+      t ∈ (plan cfg p store fuel).pending ∧ ∃ uc, Ev.submit t uc ∈ s.rs.trace := by
+  have hoi : OI (plan cfg p store fuel) s := by
+    obtain ⟨⟨k', h1⟩, h2⟩ := interruptedRun_states cfg p store fuel sched ds k k2
+    rcases hs with rfl | rfl
+    · rcases h2 with ⟨k'', h2⟩ | ⟨m, h2⟩ | ⟨m, m2, h2⟩
+      · rw [h2]; exact stateAt_OI store fuel sched k''
+      · rw [h2]; exact handlerStateAt_OI store fuel sched k ds m
+      · rw [h2]; exact secondStateAt_OI store fuel sched k ds m m2
+    · rw [h1]; exact stateAt_OI store fuel sched k'
+  exact ⟨hoi.subNd, hoi.ranNd, fun t ht => OI_on_record hoi t ht⟩
+
+/-- explicit form: two different positions of the final trace of an interrupted run never submit the
+    same task, and never carry a worker record of the same task -/
+theorem no_second_submit_or_execution_interrupted (cfg : Config) (p : Problem) (store : Store) (fuel : Nat)
+    (sched ds : List Choice) (k : Nat) (k2 : Option Nat) (a b c : List Ev) (e e' : Ev) (t : Tid)
+    (he : (evSubmit e = some t ∧ evSubmit e' = some t) ∨ (evRan e = some t ∧ evRan e' = some t)) :
+    (interruptedRun cfg p store fuel sched k ds k2).final.rs.trace ≠ a ++ e :: b ++ e' :: c := by
+  intro h
+  obtain ⟨h1, h2, _⟩ := once_and_planned_interrupted cfg p store fuel sched ds k k2 _ (Or.inl rfl)
+  rw [h] at h1 h2
+  rcases he with ⟨he, he'⟩ | ⟨he, he'⟩
+  · simp only [submittedOf, List.filterMap_append, List.filterMap_cons, he, he', List.append_assoc] at h1
+    rw [List.nodup_append] at h1
+    have := h1.2.1
+    rw [List.cons_append, List.nodup_cons] at this
+    exact this.1 (by simp)
+  · simp only [ranOf, List.filterMap_append, List.filterMap_cons, he, he', List.append_assoc] at h2
+    rw [List.nodup_append] at h2
+    have := h2.2.1
+    rw [List.cons_append, List.nodup_cons] at this
+    exact this.1 (by simp)
+
+/-! non-vacuity at mid-iteration instants and in interrupted runs (`invExP`: the diamond 3 → {1, 2} → 0,
+    `invExCfg`: fork, 2 workers; 61 primitives; 14 … 26 is the submit phase of tasks 1 and 2:
+    14 startTask 1, 15 enqueue 1, 16 procStart 1, 17 regRunning 1, 18 unregPending 1, 19 regFuture 1,
+    20 startTask 2, 21 enqueue 2, 22 procStart 2, 23 regRunning 2, 24 unregPending 2, 25 regFuture 2) -/
+def c03Sched : List Choice := List.replicate 5 chooseAll
+
+/-- k = 24, strictly between two loop heads, inside `_start_processes`: the future of task 2 is in the
+    pending map AND in the running map (the extra invariant `OS` of the main stream's block boundaries
+    is false here, `OI` holds); three tasks submitted, one executed -/
+example : (mainOf invExCfg invExP [] 4 c03Sched).length = 61 ∧
+    (mainAt invExCfg invExP [] 4 c03Sched 24).rs.queued.map Job.tid = [2] ∧
+    (mainAt invExCfg invExP [] 4 c03Sched 24).rs.running.map Job.tid = [1, 2] ∧
+    submittedOf (mainAt invExCfg invExP [] 4 c03Sched 24).rs.trace = [0, 1, 2] ∧
+    ranOf (mainAt invExCfg invExP [] 4 c03Sched 24).rs.trace = [0] := by decide
+
+/-- a single interrupt in that window: the handler cancels the pending entry of 2 and drains; tasks 1
+    and 2 are executed AFTER the interrupt, each once (task 2 although it was tracked twice); task 3 is
+    planned but never submitted -/
+example :
+    (interruptedRun invExCfg invExP [] 4 c03Sched 24 c03Sched none).outcome = .interrupted ∧
+    ranOf (interruptedRun invExCfg invExP [] 4 c03Sched 24 c03Sched none).atIntr.rs.trace = [0] ∧
+    ranOf (interruptedRun invExCfg invExP [] 4 c03Sched 24 c03Sched none).final.rs.trace = [0, 1, 2] ∧
+    submittedOf (interruptedRun invExCfg invExP [] 4 c03Sched 24 c03Sched none).final.rs.trace = [0, 1, 2] ∧
+    (plan invExCfg invExP [] 4).pending = [3, 1, 2, 0] := by decide
+
+/-- a double interrupt (second one after the first handler's first primitive): `stop()` terminates the
+    workers of 1 and 2, the last processing round starts and executes nothing -/
+example :
+    (interruptedRun invExCfg invExP [] 4 c03Sched 24 c03Sched (some 1)).outcome = .interrupted ∧
+    (interruptedRun invExCfg invExP [] 4 c03Sched 24 c03Sched (some 1)).final.terminated = [1, 2] ∧
+    ranOf (interruptedRun invExCfg invExP [] 4 c03Sched 24 c03Sched (some 1)).final.rs.trace = [0] ∧
+    submittedOf (interruptedRun invExCfg invExP [] 4 c03Sched 24 c03Sched (some 1)).final.rs.trace = [0, 1, 2] := by
+  decide
+
+/-- the theorem applied to the single-interrupt run: task 2, executed during the drain, is planned -/
+example : 2 ∈ (plan invExCfg invExP [] 4).pending :=
+  ((once_and_planned_interrupted invExCfg invExP [] 4 c03Sched c03Sched 24 none _ (Or.inl rfl)).2.2 2
+    (Or.inr (Or.inr (Or.inr ⟨[some 0], by decide⟩)))).1
 
 end Lt.Props.C03
